@@ -524,9 +524,12 @@ leaps_before(struct dt_dt_s d)
 		res = leaps_before_ui32(leaps_ymd, nleaps, d.d.ymd.u);
 		on = res + 1 < nleaps && leaps_ymd[res + 1] == d.d.ymd.u;
 		break;
-	case DT_YMCW: {
+	case DT_YMCW:
+	case DT_YWD:
+	case DT_YD: {
 		/* ymcw words are not ordered chronologically and their
-		 * padding bits are not defined, go through ymd */
+		 * padding bits are not defined, there are no tables for
+		 * ywd and yd, go through ymd */
 		const dt_ymd_t tmp = dt_dconv(DT_YMD, d.d).ymd;
 		res = leaps_before_ui32(leaps_ymd, nleaps, tmp.u);
 		on = res + 1 < nleaps && leaps_ymd[res + 1] == tmp.u;
